@@ -1,5 +1,5 @@
 (* M4: the theorems over ALL schedules (any number of requesters), assembled from the
-   invariants; refutation schedules for the findings F1, F2 (C07). *)
+   invariants. *)
 From Coq Require Import List ZArith Lia Bool String Arith.
 From GoHls Require Import Lib.MuxSched Model.MuxConcSeq Model.MuxConcSpec Model.MuxConcPar
   Proofs.MuxConcSeqA Proofs.MuxConcSeqB Proofs.MuxConcInvA Proofs.MuxConcInvB Proofs.MuxConcInvC
@@ -8,7 +8,6 @@ Import ListNotations.
 Local Open Scope Z_scope.
 
 Record Inv (c : cstate) : Prop := {
-  i_leak : reqs_all leak_ok c;
   i_frame : reqs_all pc_frame_ok c;
   i_mutex : mutex_inv c;
   i_wake : wake_inv c;
@@ -19,7 +18,6 @@ Record Inv (c : cstate) : Prop := {
 Lemma Inv_init : forall m prog reqs, fresh m -> Inv (cinit m prog reqs).
 Proof.
   intros m prog reqs F. constructor.
-  - apply reqs_all_init. intros r H. discriminate.
   - apply reqs_all_init. intros r. exact I.
   - apply mutex_inv_init.
   - apply wake_inv_init.
@@ -29,8 +27,7 @@ Qed.
 
 Lemma Inv_step : forall c t, Inv c -> Inv (step c t).
 Proof.
-  intros c t [I1 I2 I3 I4 I5 I6]. constructor.
-  - apply local_invariant; [apply lstep_leak_ok|apply wake_leak_ok|exact I1].
+  intros c t [I2 I3 I4 I5 I6]. constructor.
   - apply local_invariant; [apply lstep_frame_ok|apply wake_frame_ok|exact I2].
   - apply mutex_inv_step; assumption.
   - apply wake_inv_step; assumption.
@@ -65,9 +62,19 @@ Qed.
 Lemma hint_prop_of_paths : forall m, paths_ok m -> hint_prop m.
 Proof. intros m P q k id h H. eapply hint_break_handler; eauto. Qed.
 
+Theorem hint_prop_reachable : forall m prog reqs sched,
+  m_variant m = LL -> paths_ok m -> hint_prop (c_mux (crun (cinit m prog reqs) sched)).
+Proof.
+  intros m prog reqs sched Hv P. apply hint_prop_of_paths. exact (proj2 (paths_reachable m prog reqs sched Hv P)).
+Qed.
+
+Theorem mutex_owner_reachable : forall m prog reqs sched,
+  fresh m -> mutex_inv (crun (cinit m prog reqs) sched).
+Proof. intros m prog reqs sched F. exact (i_mutex _ (Inv_reachable m prog reqs sched F)). Qed.
+
 (* ---------- C06: safety ---------- *)
 Lemma init_reqs_start : forall m prog reqs i r,
-  nth_error (c_reqs (cinit m prog reqs)) i = Some r -> r_pc r = PStart /\ r_leaked r = false.
+  nth_error (c_reqs (cinit m prog reqs)) i = Some r -> r_pc r = PStart.
 Proof.
   intros m prog reqs i r H. simpl in H. apply nth_error_map_some in H. destruct H as [x [_ ->]]. auto.
 Qed.
@@ -94,7 +101,7 @@ Proof.
 Qed.
 
 (* what the blocking handler's test says when it answers 200 *)
-Lemma test_blocking_200 : forall m q k M p d pl,
+Lemma test_blocking_200 : forall m q k M (p : option Z) d pl,
   test m q (FBlocking k M p d) = TExit (R200Playlist pl) ->
   exists s, nth_error (m_streams m) k = Some s /\ s_closed s = false /\
             decide_core (m_variant m) s M p = Ready /\
@@ -198,7 +205,7 @@ Theorem no_lost_wakeup : forall m prog reqs sched i r f,
   content_ready (c_mux c) f = true -> owed_rot (c_wpc c) = true.
 Proof. intros m prog reqs sched i r f F c Hr Hp Hc. exact (i_wake _ (Inv_reachable m prog reqs sched F) i r f Hr Hp Hc). Qed.
 
-Lemma content_ready_blocking : forall m k M p d s,
+Lemma content_ready_blocking : forall m k M (p : option Z) d s,
   nth_error (m_streams m) k = Some s ->
   content_ready m (FBlocking k M p d) = true <->
   (decide_core (m_variant m) s M p = Ready \/ decide_core (m_variant m) s M p = Respond400).
@@ -236,7 +243,7 @@ Theorem own_progress : forall c i r,
 Proof.
   intros c i r I HP Hw Hr Ho.
   destruct (own_progress_local (c_mux c) (c_wpc c) (c_progress c) i HP r (c_owner c)
-              (i_leak _ I i r Hr) (consistent_of_inv c i r I Hr Ho)) as [k [Hk [Hf Hc]]].
+              (consistent_of_inv c i r I Hr Ho)) as [k [Hk [Hf Hc]]].
   exists k. split; [exact Hk|].
   destruct (rrun_obs i k c r Hr Hw) as [A [B [C _]]]. cbn zeta. split; [|exact C].
   eexists. split; [exact A|]. rewrite B. auto.
@@ -251,11 +258,10 @@ Theorem ready_progress : forall c i r f,
     let c' := crun c (repeat (TR i) k) in
     done_with c' i = Some resp /\
     resp_of_test (test (c_mux c) (req_query (r_req r)) f) resp /\
-    (exists r', nth_error (c_reqs c') i = Some r' /\ r_waits r' = r_waits r /\
-                (c_owner c' = None \/ r_leaked r' = true)).
+    (exists r', nth_error (c_reqs c') i = Some r' /\ r_waits r' = r_waits r /\ c_owner c' = None).
 Proof.
   intros c i r f I HP Hw Hr Hp Ho Ht.
-  destruct (own_progress_ready (c_mux c) (c_wpc c) (c_progress c) i HP r f (i_leak _ I i r Hr) Hp Ht)
+  destruct (own_progress_ready (c_mux c) (c_wpc c) (c_progress c) i HP r f Hp Ht)
     as [k [Hk [resp [A [B [C D]]]]]].
   exists k. split; [exact Hk|]. exists resp.
   destruct (rrun_obs i k c r Hr Hw) as [E1 [E2 _]]. cbn zeta. rewrite Ho in E1, E2.
@@ -287,7 +293,7 @@ Theorem hint_decided_ready : forall m prog reqs sched i r h,
     req_pc c i = Some (PTest f) /\ test (c_mux c) (req_query (r_req r)) f = TBreakHint h.
 Proof.
   intros m prog reqs sched i r h Hr Hp.
-  pose proof (hist_inv_all (cinit m prog reqs) (init_reqs_start m prog reqs) sched i r Hr) as [_ [K2 _]].
+  pose proof (hist_inv_all (cinit m prog reqs) (init_reqs_start m prog reqs) sched i r Hr) as [_ K2].
   destruct (K2 h Hp) as [p [rest [f [E [Hw [Hpc Ht]]]]]]. exists p, rest, f. auto.
 Qed.
 
@@ -314,70 +320,36 @@ Qed.
 Definition nobody_inside (c : cstate) : Prop :=
   w_inside (c_wpc c) = false /\ forall i r, nth_error (c_reqs c) i = Some r -> r_inside r = false.
 
-Definition nobody_leaked (c : cstate) : Prop :=
-  forall i r, nth_error (c_reqs c) i = Some r -> r_leaked r = false.
-
-Theorem mutex_free_partial : forall c, Inv c -> nobody_inside c -> nobody_leaked c -> c_owner c = None.
+(* the mutex is free whenever no thread is inside a handler or inside a writer operation *)
+Theorem mutex_free : forall c, Inv c -> nobody_inside c -> c_owner c = None.
 Proof.
-  intros c I [Hw Hr] Hl. destruct (c_owner c) as [t|] eqn:Eo; [|reflexivity]. exfalso.
+  intros c I [Hw Hr]. destruct (c_owner c) as [t|] eqn:Eo; [|reflexivity]. exfalso.
   pose proof (proj1 (i_mutex _ I) t Eo) as Hh. destruct t as [|i]; simpl in Hh.
   - destruct (c_wpc c); simpl in *; discriminate.
-  - destruct Hh as [r [Hri Hh]]. specialize (Hr i r Hri). specialize (Hl i r Hri).
+  - destruct Hh as [r [Hri Hh]]. specialize (Hr i r Hri).
     unfold r_holds, r_inside in *. destruct (r_pc r); congruence.
 Qed.
 
-Lemma test_leak_hint : forall m q f resp, test m q f = TLeak resp ->
-  exists k id s, f = FHint k id /\ nth_error (m_streams m) k = Some s /\ s_closed s = true.
+(* a requester that has returned holds nothing: every exit path of every handler unlocks *)
+Theorem returned_holds_nothing : forall c i r resp,
+  Inv c -> nth_error (c_reqs c) i = Some r -> r_pc r = PDone resp -> c_owner c <> Some (TR i).
 Proof.
-  intros m q f resp H. destruct f as [|i msn p d|i d|i id]; unfold test in H.
-  - destruct (m_closed m); [discriminate|]. destruct (nth_error (m_streams m) 0); [|discriminate].
-    destruct (hasContent _ _); discriminate.
-  - destruct (nth_error (m_streams m) i); [|discriminate]. destruct (s_closed s); [discriminate|].
-    destruct (decide_core _ _ _ _); discriminate.
-  - destruct (nth_error (m_streams m) i); [|discriminate]. destruct (s_closed s); [discriminate|].
-    destruct (hasContent _ _); discriminate.
-  - destruct (nth_error (m_streams m) i) as [s|] eqn:Es; [|discriminate]. destruct (s_closed s) eqn:Ec.
-    + exists i, id, s. auto.
-    + destruct (id <? nextPartID s); discriminate.
+  intros c i r resp I Hr Hp Ho. destruct (proj1 (i_mutex _ I) _ Ho) as [x [Hx Hh]].
+  rewrite Hr in Hx. inversion Hx; subst x. unfold r_holds in Hh. rewrite Hp in Hh. discriminate.
 Qed.
 
-(* the only way to leave a handler with the mutex held: the preload-hint closure on a closed stream *)
-Theorem leak_origin : forall m prog reqs sched i r,
-  nth_error (c_reqs (crun (cinit m prog reqs) sched)) i = Some r -> r_leaked r = true ->
-  exists p rest k id s, sched = p ++ TR i :: rest /\
-    let c := crun (cinit m prog reqs) p in
-    req_pc c i = Some (PTest (FHint k id)) /\
-    nth_error (m_streams (c_mux c)) k = Some s /\ s_closed s = true.
-Proof.
-  intros m prog reqs sched i r Hr Hl.
-  pose proof (hist_inv_all (cinit m prog reqs) (init_reqs_start m prog reqs) sched i r Hr) as [_ [_ K3]].
-  destruct (K3 Hl) as [p [rest [f [E [Hw [Hpc Ht]]]]]].
-  destruct (test_leak_hint _ _ _ _ Ht) as [k [id [s [-> [Hs Hc]]]]].
-  exists p, rest, k, id, s. auto.
-Qed.
-
-(* after Close returned no loop test waits *)
-Lemma no_wait_after_close : forall c, phase_inv c -> c_wpc c = WFinished ->
+(* from the moment Close has set the flags no loop test waits *)
+Lemma no_wait_after_close : forall c, phase_inv c -> closing (c_wpc c) = true ->
   forall q f, test (c_mux c) q f <> TWait.
-Proof.
-  intros c P Hw q f H.
-  assert (Hc : m_closed (c_mux c) = true) by (rewrite (ph_closed _ P), Hw; reflexivity).
-  assert (Hs : forall k s, nth_error (m_streams (c_mux c)) k = Some s -> s_closed s = true)
-    by (intros k s Hk; rewrite (ph_streams _ P k s Hk), Hw; reflexivity).
-  destruct f as [|k msn p d|k d|k id]; unfold test in H.
-  - rewrite Hc in H. discriminate.
-  - destruct (nth_error (m_streams (c_mux c)) k) as [s|] eqn:E; [|discriminate]. rewrite (Hs k s E) in H. discriminate.
-  - destruct (nth_error (m_streams (c_mux c)) k) as [s|] eqn:E; [|discriminate]. rewrite (Hs k s E) in H. discriminate.
-  - destruct (nth_error (m_streams (c_mux c)) k) as [s|] eqn:E; [|discriminate]. rewrite (Hs k s E) in H. discriminate.
-Qed.
+Proof. exact no_wait_when_closing. Qed.
 
-Lemma closed_test_non200 : forall c, phase_inv c -> c_wpc c = WFinished ->
+Lemma closed_test_non200 : forall c, phase_inv c -> closing (c_wpc c) = true ->
   forall q f resp, resp_of_test (test (c_mux c) q f) resp -> is_200 resp = false.
 Proof.
   intros c P Hw q f resp H.
-  assert (Hc : m_closed (c_mux c) = true) by (rewrite (ph_closed _ P), Hw; reflexivity).
+  assert (Hc : m_closed (c_mux c) = true) by (rewrite (ph_closed _ P); exact Hw).
   assert (Hs : forall k s, nth_error (m_streams (c_mux c)) k = Some s -> s_closed s = true)
-    by (intros k s Hk; rewrite (ph_streams _ P k s Hk), Hw; reflexivity).
+    by (intros k s Hk; rewrite (ph_streams _ P k s Hk); exact Hw).
   destruct f as [|k msn p d|k d|k id]; unfold test in H.
   - rewrite Hc in H. simpl in H. subst; reflexivity.
   - destruct (nth_error (m_streams (c_mux c)) k) as [s|] eqn:E; [rewrite (Hs k s E) in H|]; simpl in H; subst; reflexivity.
@@ -385,52 +357,61 @@ Proof.
   - destruct (nth_error (m_streams (c_mux c)) k) as [s|] eqn:E; [rewrite (Hs k s E) in H|]; simpl in H; subst; reflexivity.
 Qed.
 
-(* a requester that was waiting and has been woken completes by its own steps with a non-200 *)
-Theorem woken_terminates_after_close : forall c i r f,
-  Inv c -> hint_prop (c_mux c) -> c_wpc c = WFinished -> c_owner c = None ->
-  nth_error (c_reqs c) i = Some r -> r_pc r = PWoken f ->
-  exists k, (k <= 4)%nat /\ exists resp,
-    done_with (crun c (repeat (TR i) k)) i = Some resp /\ is_200 resp = false.
-Proof.
-  intros c i r f I HP Hw Ho Hr Hp.
-  assert (Hnc : c_wpc c <> WCrashed) by congruence.
-  destruct (ready_progress c i r f I HP Hnc Hr (or_intror Hp) Ho
-              (no_wait_after_close c (i_phase _ I) Hw _ _)) as [k [Hk [resp [A [B _]]]]].
-  exists k. split; [exact Hk|]. exists resp. split; [exact A|].
-  eapply closed_test_non200; eauto. apply (i_phase _ I).
-Qed.
+Lemma closing_of_done : forall w, close_broadcast_done w = true -> closing w = true.
+Proof. intros w H. destruct w; try discriminate; reflexivity. Qed.
 
-(* any request that is not asleep (a later request in particular) completes by its own steps,
-   without ever waiting *)
-Theorem later_requests_after_close : forall c i r,
-  Inv c -> hint_prop (c_mux c) -> c_wpc c = WFinished -> c_owner c = None ->
-  nth_error (c_reqs c) i = Some r -> (forall f, r_pc r <> PWaiting f) ->
-  exists k, (k <= 6)%nat /\ exists r',
-    nth_error (c_reqs (crun c (repeat (TR i) k))) i = Some r' /\
-    (exists resp, r_pc r' = PDone resp) /\ r_waits r' = r_waits r.
-Proof.
-  intros c i r I HP Hw Ho Hr Hnw.
-  assert (Hnc : c_wpc c <> WCrashed) by congruence.
-  destruct (own_progress_local (c_mux c) (c_wpc c) (c_progress c) i HP r (c_owner c)
-              (i_leak _ I i r Hr) (consistent_of_inv c i r I Hr (or_introl Ho))) as [k [Hk [Hf _]]].
-  destruct (literate_no_wait (c_mux c) (c_wpc c) (c_progress c) i k r (c_owner c)
-              (no_wait_after_close c (i_phase _ I) Hw) Hnw) as [N1 N2].
-  exists k. split; [exact Hk|]. destruct (rrun_obs i k c r Hr Hnc) as [A _].
-  eexists. split; [exact A|]. split; [|exact N2].
-  destruct Hf as [Hd|[f Hf]]; [exact Hd|]. exfalso. eapply N1; eauto.
-Qed.
-
-(* after Close has broadcast, whoever is still asleep (i) went to sleep after that broadcast -
-   nobody will ever wake it - and (ii) is not the multivariant handler: exactly finding F2 *)
-Theorem stuck_only_f2 : forall m prog reqs sched i r f,
+(* after Close's broadcast nobody is asleep: every waiter has been woken, and nobody can fall
+   asleep again *)
+Theorem nobody_asleep_after_close : forall m prog reqs sched i r f,
   fresh m ->
   let c := crun (cinit m prog reqs) sched in
   close_broadcast_done (c_wpc c) = true ->
-  nth_error (c_reqs c) i = Some r -> r_pc r = PWaiting f ->
-  r_slept_late r = true /\ f <> FMulti.
+  nth_error (c_reqs c) i = Some r -> r_pc r <> PWaiting f.
 Proof.
-  intros m prog reqs sched i r f F c Hd Hr Hp.
-  exact (i_late _ (Inv_reachable m prog reqs sched F) Hd i r f Hr Hp).
+  intros m prog reqs sched i r f F c Hd Hr.
+  exact (i_late _ (Inv_reachable m prog reqs sched F) Hd i r f Hr).
+Qed.
+
+(* a requester that was waiting and has been woken completes by its own steps with a non-200 *)
+Theorem woken_terminates_after_close : forall c i r f,
+  Inv c -> hint_prop (c_mux c) -> closing (c_wpc c) = true -> c_wpc c <> WCrashed -> c_owner c = None ->
+  nth_error (c_reqs c) i = Some r -> r_pc r = PWoken f ->
+  exists k, (k <= 4)%nat /\ exists resp,
+    done_with (crun c (repeat (TR i) k)) i = Some resp /\ is_200 resp = false /\
+    c_owner (crun c (repeat (TR i) k)) = None.
+Proof.
+  intros c i r f I HP Hw Hnc Ho Hr Hp.
+  destruct (ready_progress c i r f I HP Hnc Hr (or_intror Hp) Ho
+              (no_wait_after_close c (i_phase _ I) Hw _ _)) as [k [Hk [resp [A [B [r' [_ [_ C]]]]]]]].
+  exists k. split; [exact Hk|]. exists resp. split; [exact A|]. split; [|exact C].
+  eapply closed_test_non200; eauto. apply (i_phase _ I).
+Qed.
+
+(* every request that is not already answered - a woken waiter, a request in flight, a request
+   issued after Close - completes by its own steps, without ever waiting, and leaves the mutex
+   free *)
+Theorem all_terminate_after_close : forall c i r,
+  Inv c -> hint_prop (c_mux c) -> close_broadcast_done (c_wpc c) = true -> c_owner c = None ->
+  nth_error (c_reqs c) i = Some r ->
+  exists k, (k <= 6)%nat /\ exists r',
+    nth_error (c_reqs (crun c (repeat (TR i) k))) i = Some r' /\
+    (exists resp, r_pc r' = PDone resp) /\ r_waits r' = r_waits r /\
+    c_owner (crun c (repeat (TR i) k)) = None.
+Proof.
+  intros c i r I HP Hd Ho Hr.
+  assert (Hnc : c_wpc c <> WCrashed) by (intro E; rewrite E in Hd; discriminate).
+  assert (Hnw : forall f, r_pc r <> PWaiting f) by (intros f; exact (i_late _ I Hd i r f Hr)).
+  destruct (own_progress_local (c_mux c) (c_wpc c) (c_progress c) i HP r (c_owner c)
+              (consistent_of_inv c i r I Hr (or_introl Ho))) as [k [Hk [Hf Hc]]].
+  destruct (literate_no_wait (c_mux c) (c_wpc c) (c_progress c) i k r (c_owner c)
+              (no_wait_after_close c (i_phase _ I) (closing_of_done _ Hd)) Hnw) as [N1 N2].
+  exists k. split; [exact Hk|]. destruct (rrun_obs i k c r Hr Hnc) as [A [B _]].
+  eexists. split; [exact A|].
+  assert (Hdone : exists resp, r_pc (fst (literate (c_mux c) (c_wpc c) (c_progress c) i k r (c_owner c))) = PDone resp).
+  { destruct Hf as [Hd'|[f Hf]]; [exact Hd'|]. exfalso. eapply N1; eauto. }
+  split; [exact Hdone|]. split; [exact N2|].
+  rewrite B. destruct Hdone as [resp Hp]. destruct Hc as [[Hh _]|[_ Hn]]; [|exact Hn].
+  unfold r_holds in Hh. rewrite Hp in Hh. discriminate.
 Qed.
 
 (* Close, once it holds the mutex, returns by its own steps *)
@@ -448,8 +429,7 @@ Proof.
     destruct (Nat.ltb k (List.length (m_streams (c_mux c)))) eqn:E.
     + eapply IH; [reflexivity|]. simpl. destruct (closeStream_fields (c_mux c) k) as [_ [_ [_ [Hl _]]]].
       rewrite Hl. apply Nat.ltb_lt in E. lia.
-    + (* already done: further steps keep WFinished *)
-      clear IH. set (c1 := mk (c_mux c) (c_owner c) WFinished (c_prog c) (c_reqs c) (c_progress c)).
+    + clear IH. set (c1 := mk (c_mux c) (c_owner c) WFinished (c_prog c) (c_reqs c) (c_progress c)).
       assert (G : forall j c2, c_wpc c2 = WFinished -> c_wpc (crun c2 (repeat TW j)) = WFinished).
       { induction j as [|j IHj]; intros c2 H2; [exact H2|]. change (repeat TW (S j)) with (TW :: repeat TW j). unfold crun. rewrite run_cons.
         fold (crun (step c2 TW) (repeat TW j)). apply IHj. unfold step. rewrite H2. unfold wstep. rewrite H2. exact H2. }
@@ -479,41 +459,30 @@ Proof.
     change (repeat TW (S (S (S (S n))))) with (TW :: repeat TW (S (S (S n)))). unfold crun. rewrite run_cons.
     fold (crun (step c TW) (repeat TW (S (S (S n))))). apply S2.
     + unfold step. rewrite H. unfold wstep. rewrite H. reflexivity.
-    + unfold step. rewrite H. unfold wstep. rewrite H. reflexivity.
+    + unfold step. rewrite H. unfold wstep. rewrite H. simpl. rewrite map_length. reflexivity.
   - exists (S (S (S n))). split; [unfold n; lia|]. apply S2; auto.
   - exists (S (S n)). split; [unfold n; lia|]. apply S3; auto.
   - exists (S n). split; [unfold n; lia|]. eapply close_completes_from; [exact H|]. unfold n. lia.
 Qed.
 
-(* ---------- refutations on the pinned tree ---------- *)
-(* F2: one media-playlist request waiting for content; Close locks, sets closed, unlocks,
-   broadcasts; the waiter wakes, re-checks (its stream is not marked closed yet), sleeps again;
-   Close marks the stream closed and returns.  Nobody will broadcast again. *)
+(* ---------- regression: the schedules that refuted the unrepaired code ---------- *)
+(* former F2: one media-playlist request waiting for content; Close locks, sets the flags,
+   unlocks, broadcasts; the waiter wakes and re-checks BEFORE stream.close() runs: it now sees
+   its stream closed and answers 500 *)
 Definition f2_init : cstate := cinit (mux_init LL 7 1 0) [WClose] [RqMedia 0 []].
 Definition f2_sched : list tid :=
   [TR 0; TR 0; TR 0; TR 0;   (* lookup, call, Lock, test -> Wait *)
-   TW; TW; TW; TW;           (* Close: Lock, closed := true, Unlock, Broadcast *)
-   TR 0; TR 0;               (* the waiter re-acquires the mutex and re-checks: Wait again *)
+   TW; TW; TW; TW;           (* Close: Lock, closed flags, Unlock, Broadcast *)
+   TR 0; TR 0; TR 0;         (* the waiter re-acquires the mutex, re-checks, unlocks *)
    TW; TW]%nat.              (* stream.close(); Close returns *)
 
-Theorem all_terminate_refuted :
+Lemma f2_regression :
   let c := crun f2_init f2_sched in
-  c_wpc c = WFinished /\ c_owner c = None /\ req_pc c 0 = Some (PWaiting (FPlain 0 false)) /\
-  (forall sched', req_pc (crun c sched') 0 = Some (PWaiting (FPlain 0 false))).
-Proof.
-  cbn zeta. split; [vm_compute; reflexivity|]. split; [vm_compute; reflexivity|].
-  split; [vm_compute; reflexivity|].
-  remember (crun f2_init f2_sched) as c eqn:E. vm_compute in E.
-  assert (Fix : forall t, step c t = c).
-  { rewrite E. intros [|[|j]]; try reflexivity. destruct j; reflexivity. }
-  assert (Pc : req_pc c 0 = Some (PWaiting (FPlain 0 false))) by (rewrite E; reflexivity).
-  clear E. intros sched'. induction sched' as [|t s IH]; [exact Pc|].
-  unfold crun in *. rewrite run_cons, Fix. exact IH.
-Qed.
+  c_wpc c = WFinished /\ c_owner c = None /\ done_with c 0 = Some R500.
+Proof. vm_compute. auto. Qed.
 
-(* F1: a preload-hint request is waiting; Close runs to completion; the hint handler wakes,
-   sees s.closed, answers 500 and returns WITHOUT unlocking: the mutex stays held although no
-   thread is inside a handler, and a later request cannot even enter. *)
+(* former F1: a preload-hint request is waiting; Close runs to completion; the hint handler
+   wakes, sees s.closed, unlocks, answers 500; a later request is answered too *)
 Definition f1_prog : list wop := [WCreateFirst; WRotateParts; WClose].
 Definition f1_init : cstate :=
   cinit (mux_init LL 7 1 0) f1_prog [RqPath (PPart 0 1); RqMulti].
@@ -521,22 +490,10 @@ Definition f1_sched : list tid :=
   [TW; TW; TW; TW; TW;            (* createFirstSegment; rotateParts: part 0 done, hint for part 1 *)
    TR 0; TR 0; TR 0; TR 0;        (* GET part1 (the hint): lookup, call, Lock, test -> Wait *)
    TW; TW; TW; TW; TW; TW;        (* Close, all of it *)
-   TR 0; TR 0]%nat.               (* the hint handler wakes: s.closed -> 500, return *)
+   TR 0; TR 0; TR 0;              (* the hint handler wakes: s.closed -> Unlock, 500 *)
+   TR 1; TR 1; TR 1; TR 1; TR 1]%nat.  (* a later index.m3u8 request: 500, no waiting *)
 
-Theorem mutex_free_refuted :
+Lemma f1_regression :
   let c := crun f1_init f1_sched in
-  c_wpc c = WFinished /\ done_with c 0 = Some R500 /\ req_pc c 1 = Some PStart /\
-  (* nobody is inside a handler or inside Close, yet the mutex is held *)
-  c_owner c = Some (TR 0) /\
-  (* the later request runs into Lock() and the whole system is dead: no thread can step *)
-  let c2 := crun c [TR 1; TR 1]%nat in
-  req_pc c2 1 = Some (PLock FMulti) /\ (forall sched', crun c2 sched' = c2).
-Proof.
-  cbn zeta. do 4 (split; [vm_compute; reflexivity|]).
-  remember (crun (crun f1_init f1_sched) [TR 1; TR 1]%nat) as c2 eqn:E. vm_compute in E.
-  assert (Fix : forall t, step c2 t = c2).
-  { rewrite E. intros [|[|[|j]]]; try reflexivity. destruct j; reflexivity. }
-  split; [rewrite E; reflexivity|].
-  clear E. intros sched'. induction sched' as [|t s IH]; [reflexivity|].
-  unfold crun in *. rewrite run_cons, Fix. exact IH.
-Qed.
+  c_wpc c = WFinished /\ done_with c 0 = Some R500 /\ done_with c 1 = Some R500 /\ c_owner c = None.
+Proof. vm_compute. auto. Qed.
